@@ -28,6 +28,7 @@ def check_C01(c):
 def check_C09(c):
     mc_params(c)
     c.scenario("configs_c09")
+    c.scenario("zlibframe")
     return c.finish("model_checking",
                     "one case = one compressor configuration (format, level, strategy, window bits) streamed through compress(); zlib header/trailer judged by the acceptor and the DeflateParams header model",
                     TRUST)
